@@ -501,3 +501,173 @@ def mon_C16(h):
 
 MONITORS = {"C01": mon_C01, "C02": mon_C02, "C03": mon_C03, "C04": mon_C04, "C05": mon_C05, "C06": mon_C06, "C07": mon_C07,
             "C08": mon_C08, "C15": mon_C15, "C16": mon_C16}
+
+
+# ---------------------------------------------------------------- persistence
+
+def _pview(j):
+    """what a save would write for a reported job (without times)"""
+    return (j["id"], j["pipe"], j["completed"], j["canceled"], j["start"], j["end"], j["lasterr"], j["vars"], j["vn"], j["user"],
+            tuple((t["name"], t["status"], t["start"], t["end"], t["skipped"], t["exit"], t["errored"], t["err"]) for t in j["tasks"]))
+
+
+def _sview(p):
+    return (p["id"], p["pipe"], p["completed"], p["canceled"], p["start"], p["end"], p["lasterr"], p["vars"], p["vn"], p["user"],
+            tuple((t["name"], t["status"], t["start"], t["end"], t["skipped"], t["exit"], t["errored"], t["err"]) for t in p["tasks"]))
+
+
+def _finished(j):
+    return (j["completed"] or j["canceled"]) and not _waiting(j)
+
+
+def mon_C12(h):
+    bad = []
+    cur = _defs_at(h)
+    ages = {p["id"]: p["age"] for p in (h.get("pre") or [])}
+    prev = {"jobs": [], "logs": [], "store": None}
+    if h.get("pre"):
+        # the state before the first event is not recorded; start from the first snapshot
+        prev = None
+    for k, st in enumerate(h["steps"]):
+        sn, ev = st["snap"], st["ev"]
+        if st.get("skip"):
+            continue
+        if ev["t"] in ("save", "shutdown_return") and sn.get("store") is not None and prev is not None:
+            ds = cur[k]
+            before, after = _jobs(prev), _jobs(sn)
+            store_ids = sorted(p["id"] for p in sn["store"])
+            if store_ids != sorted(after):
+                bad.append((k, "after the save the API reports jobs %s but the store holds %s" % (sorted(after), store_ids)))
+            for p in sn["store"]:
+                if p["id"] in after and _sview(p) != _pview(after[p["id"]]):
+                    bad.append((k, "job %d: the store does not hold what the API reports" % p["id"]))
+            for i, j in before.items():
+                d = _pipe(h, ds, j["pipe"])
+                gone = i not in after
+                if d is not None and gone and (_waiting(j) or _running(j)):
+                    bad.append((k, "the save removed job %d, which was waiting or running" % i))
+                if d is not None and gone and d["retp"] == 0 and d["retc"] == 0:
+                    bad.append((k, "the save removed job %d although its pipeline has no retention settings" % i))
+                if d is None and not _running(j) and not gone:
+                    bad.append((k, "job %d of an undefined pipeline survived the save" % i))
+            for p in {j["pipe"] for j in before.values()}:
+                d = _pipe(h, ds, p)
+                if d is None:
+                    continue
+                fin_before = sorted(i for i, j in before.items() if j["pipe"] == p and _finished(j))
+                kept = [i for i in fin_before if i in after]
+                if d["retc"] > 0 and len(kept) > d["retc"]:
+                    bad.append((k, "pipeline %d: %d finished jobs remain, retention_count %d" % (p, len(kept), d["retc"])))
+                if d["retp"] > 0:
+                    for i in kept:
+                        if ages.get(i, 0) > d["retp"]:
+                            bad.append((k, "pipeline %d: job %d of age %d remains, retention_period %d" % (p, i, ages.get(i, 0), d["retp"])))
+                if kept:
+                    newer_removed = [i for i in fin_before if i > min(kept) and i not in after]
+                    if newer_removed:
+                        bad.append((k, "pipeline %d: finished job %d was removed although the older job %d is kept" % (p, newer_removed[0], min(kept))))
+            removed = set(before) - set(after)
+            for i in removed:
+                if i in sn["logs"]:
+                    bad.append((k, "the logs of the removed job %d are still there" % i))
+            for i in prev["logs"]:
+                if i in after and i not in sn["logs"]:
+                    bad.append((k, "the logs of the kept job %d are gone" % i))
+        prev = sn
+    return bad
+
+
+def mon_C10(h):
+    bad = []
+    cur = _defs_at(h)
+    last_store, last_store_snap = None, None
+    for k, st in enumerate(h["steps"]):
+        sn, ev = st["snap"], st["ev"]
+        if st.get("skip"):
+            continue
+        if ev["t"] == "restart":
+            stored = {p["id"]: p for p in (sn.get("store") or [])}
+            after = _jobs(sn)
+            if sorted(stored) != sorted(after):
+                bad.append((k, "after the restart jobs %s are reported, the store holds %s" % (sorted(after), sorted(stored))))
+            for j in sn["jobs"]:
+                if _running(j) or _waiting(j) or j["sched"] or j["timer"]:
+                    bad.append((k, "job %d is not terminal after the restart" % j["id"]))
+            if sn["wait"] and any(sn["wait"].values()):
+                bad.append((k, "a wait list is not empty after the restart"))
+            for pi in sn["pipes"]:
+                d = _pipe(h, cur[k + 1], pi["p"])
+                if d and (pi["running"] or not pi["schedulable"]) and d["conc"] >= 1 and not (d["delay"] > 0 and d["qlimit"] == 0):
+                    bad.append((k, "pipeline %d is reported running / not schedulable right after the restart" % pi["p"]))
+            if last_store_snap is not None:
+                was = _jobs(last_store_snap)
+                for i, j in after.items():
+                    b = was.get(i)
+                    if b is None:
+                        continue
+                    if _finished(b):
+                        if _pview(b) != _pview(j):
+                            bad.append((k, "finished job %d is reported differently after the restart" % i))
+                        if last_store_snap.get("times", {}).get(str(i)) != sn.get("times", {}).get(str(i)):
+                            bad.append((k, "finished job %d: timestamps or error texts changed across the restart" % i))
+                    elif not j["canceled"]:
+                        bad.append((k, "job %d was unfinished when saved but is not reported canceled after the restart" % i))
+        if sn.get("store") is not None and ev["t"] in ("save", "shutdown_return"):
+            last_store, last_store_snap = sn["store"], sn
+    return bad
+
+
+def mon_C11(h):
+    bad = []
+    shut = _shut_at(h)
+    prev = EMPTY
+    forced = False
+    for k, st in enumerate(h["steps"]):
+        sn, ev = st["snap"], st["ev"]
+        if ev["t"] == "force":
+            forced = True
+        if ev["t"] == "restart":
+            forced = False
+        if st.get("skip"):
+            prev = sn
+            continue
+        if shut[k] and ev["t"] == "schedule" and st["res"] != "err:shutdown":
+            bad.append((k, "a schedule request was answered %s while shutting down" % st["res"]))
+        if ev["t"] == "shutdown":
+            pj = _jobs(prev)
+            for j in sn["jobs"]:
+                b = pj.get(j["id"])
+                if b is None:
+                    continue
+                if _waiting(b) and not j["canceled"]:
+                    bad.append((k, "waiting job %d is not canceled by the shutdown" % j["id"]))
+                if _running(b) and (j["cancels"] != b["cancels"] or j["ctx"] != b["ctx"] or j["canceled"]):
+                    bad.append((k, "a graceful shutdown interferes with the running job %d" % j["id"]))
+        if ev["t"] == "force":
+            for j in sn["jobs"]:
+                if _running(j) and j["cancels"] == 0 and not j["ctx"]:
+                    bad.append((k, "forced shutdown: the running job %d is not being canceled" % j["id"]))
+        if ev["t"] == "shutdown_return":
+            if st["res"] != "none":
+                bad.append((k, "Shutdown returned although a pipeline was running or an operation pending"))
+            for j in sn["jobs"]:
+                if _running(j) or _waiting(j) or j["sched"]:
+                    bad.append((k, "job %d is not terminal when Shutdown returns" % j["id"]))
+            store = {p["id"]: p for p in (sn.get("store") or [])}
+            jobs = _jobs(sn)
+            if sorted(store) != sorted(jobs):
+                bad.append((k, "the store does not hold exactly the reported jobs when Shutdown returns"))
+            for i, p in store.items():
+                if i in jobs and _sview(p) != _pview(jobs[i]):
+                    bad.append((k, "the store does not hold the final state of job %d" % i))
+        # every change of what a save would write must have asked for a save (outside the shutdown sequence)
+        if not shut[k + 1] and ev["t"] not in ("save", "restart", "shutdown_return"):
+            a = sorted(_pview(j) for j in prev["jobs"])
+            b = sorted(_pview(j) for j in sn["jobs"])
+            if a != b and not sn["req"] and k > 0:
+                bad.append((k, "the reported state changed but no save was requested"))
+        prev = sn
+    return bad
+
+
+MONITORS.update({"C10": mon_C10, "C11": mon_C11, "C12": mon_C12})
